@@ -1,3 +1,4 @@
+\* (class A: whole-series frames only, class B: one chunk per frame; class D: downsampled chunks, res = 2)
 \* C04 leg A quick: 3 grid points, <= 2 identical replicas, every cut into <= 2 (possibly overlapping) chunks on 2 stores,
 \* steps 1 s / 10 s (initial penalty 5 s); two-series worlds (72); non-identical replicas on 2 grid points
 SPECIFICATION Spec
@@ -8,5 +9,6 @@ CONSTANTS N = 3
           NC = 2
           N3 = 0
           CaseCap = 1300
-INVARIANTS ProxySortedUnique FramesRejoined ChainsDisjoint C04_OneSeriesPerLset C04_ExactWhenIdentical C04_Provenance OutIncreasing
+          FrameCuts = {0}
+INVARIANTS ProxySortedUnique FramesRejoined ChainsDisjoint C04_OneSeriesPerLset C04_ExactWhenIdentical C04_Provenance OutIncreasing MaxResAsked
 CHECK_DEADLOCK FALSE
